@@ -1,5 +1,6 @@
 import PvModel.Props.C17
 import PvModel.Props.C17Label
+import PvModel.Props.C17Enforce
 #print axioms Pv.C17_label_values
 #print axioms Pv.C17_map_sum
 #print axioms Pv.C17_plus_bounds
@@ -17,3 +18,6 @@ import PvModel.Props.C17Label
 #print axioms Pv.C17_label_exactly_once
 #print axioms Pv.C17_label_term_exactly_once
 #print axioms Pv.C17_program_labelled
+#print axioms Pv.C17_labelling_invariants
+#print axioms Pv.C17_hidden_labelling_decides
+#print axioms Pv.C17_hidden_onceo
